@@ -11,6 +11,7 @@ echo "tests with patch: $res"
 extra=""
 grep -q pthread "$sd/demo.c" && extra="-pthread"
 grep -q "dlsym\|dlopen" "$sd/demo.c" && extra="$extra -ldl"
+grep -q "__wrap_malloc" "$sd/demo.c" && extra="$extra -O0 -Wl,--wrap=malloc,--wrap=calloc,--wrap=realloc,--wrap=free"
 gcc -O1 -I "$wt/include" -I "$wt" -I "$wt/src" "$sd/demo.c" "$wt/src/.libs/libsafec.a" -o "$sd/demo_p" $extra -lm 2>/dev/null || gcc -I "$wt/include" "$sd/demo.c" "$wt/src/.libs/libsafec.a" -o "$sd/demo_p" $extra -lm
 "$sd/demo_p" >/dev/null 2>&1; rp=$?
 git checkout -q -- src include
